@@ -282,10 +282,17 @@ func ruleHookPlumbing(r *Run, p *Prog) {
 	if !r.Anchor(hookT != nil, "HOOKS", "type Hook") {
 		return
 	}
-	_, msg := writeAndMsg(p)
+	write, msg := writeAndMsg(p)
 	msgSet := map[*ssa.Function]bool{}
 	if msg != nil {
 		msgSet = p.exclusiveHelpers(msg)
+		// write() and its helpers are msg's callees too, but they are the "hand over to the writer"
+		// step: hooks must not run there (MSG counts the hook loop in msg with write kept as a call)
+		if write != nil {
+			for g := range p.exclusiveHelpers(write) {
+				delete(msgSet, g)
+			}
+		}
 	}
 	// who invokes Hook.Run
 	for _, f := range p.ModFns {
@@ -357,6 +364,7 @@ func sigOf(c *ssa.CallCommon) *types_Signature {
 // ruleHookAppend: l.hooks' = (fresh) receiver's hooks ++ new hooks, decided on a small sequence
 // domain over make/copy/append/clone, not on one syntactic shape.
 func ruleHookAppend(r *Run, p *Prog, lh *ssa.Function) {
+	lh = p.View(lh, "", nil)
 	fn := FnName(lh)
 	var st *ssa.Store
 	n := 0
